@@ -57,18 +57,23 @@ _zone_cache = {}
 
 
 def file_zone(path):
-    """('absent',) | ('zone', off) | ('unreadable',) | ('varying',) for a path of the real machine."""
+    """('absent',) | ('zone', off-or-step) | ('unreadable',) | ('varying',) for a path of the real machine.
+    Files under a c18z directory are written by the harness before its first history (those it may
+    not create, e.g. without root, simply do not exist): their content is known by construction,
+    their existence is looked up when asked (the machine description is built after the
+    implementation run)."""
+    if '/c18z/' in path:
+        n = os.path.normpath(path)
+        if not os.path.exists(path) or os.path.isdir(path):
+            return ('unreadable',) if os.path.isdir(path) else ('absent',)
+        if n == STEP[0]:
+            return ('zone', STEP[1])
+        if n in CREATED:
+            return ('zone', CREATED[n]) if CREATED[n] is not None else ('unreadable',)
+        return ('unreadable',)
     if path in _zone_cache:
         return _zone_cache[path]
-    if path == STEP[0]:
-        r = ('zone', STEP[1])
-    elif path in CREATED:
-        r = ('zone', CREATED[path]) if CREATED[path] is not None else ('unreadable',)
-    elif '/c18z/' in path and os.path.normpath(path) in CREATED and path != os.path.normpath(path):
-        # a dotted spelling of a created file (the directories exist once the harness has run)
-        n = os.path.normpath(path)
-        r = ('zone', CREATED[n]) if CREATED[n] is not None else ('unreadable',)
-    elif not os.path.exists(path):
+    if not os.path.exists(path):
         r = ('absent',)
     elif os.path.isdir(path):
         r = ('unreadable',)
@@ -125,10 +130,6 @@ def world_for(values):
         extra.append('/usr/share/zoneinfo/' + ia)
     for v in values:
         extra += candidates(v)
-    for p in list(extra):
-        n = os.path.normpath(p)
-        if n != p and n in CREATED:
-            extra.append(n)      # the harness creates the plain spelling
     for p in extra:
         if p in files:
             continue
@@ -145,7 +146,7 @@ def world_for(values):
 
 
 def usable(v):
-    return all(file_zone(p)[0] != 'varying' for p in candidates(v))
+    return all('/c18z/' in p or file_zone(p)[0] != 'varying' for p in candidates(v))
 
 
 NDTS = [[2020, 100, 43200, 0], [1999, 365, 86399, 999999999], [2037, 1, 0, 0], [1971, 200, 3600, 1500000000], [2024, 366, 7, 5],
